@@ -81,15 +81,15 @@ func (g *verifAGhost) leave() { g.present = false }
 // With rejoin == false host a never comes back after it left.
 func verifActiveHistory(rounds int, rejoin bool) {
 	verifASched()
-	fails := verif.Choice("fails", 3) + 1
-	passes := verif.Choice("passes", 3) + 1
+	fails := verif.IntRange("fails", 1, 3)
+	passes := verif.IntRange("passes", 1, 3)
 	ck := &verifAChecker{fail: map[string]bool{}, seen: map[string]int{}}
 	f := NewFilter(FilterConfig{Fails: fails, Passes: passes}, ck)
 	ghost := make([]verifAGhost, 3)
 	left := false
 	for r := 0; r < rounds; r++ {
 		addrs := stringset.New(verifAHosts[1], verifAHosts[2])
-		aop := verif.Choice("a_op", 3) // 0 absent, 1 pass, 2 fail
+		aop := verif.Choice("a_listed", 2) // 0 absent, 1 listed
 		if aop != 0 && left && !rejoin {
 			verif.Assume(false)
 		}
@@ -103,8 +103,8 @@ func verifActiveHistory(rounds int, rejoin bool) {
 				verif.Reach("host-rejoined")
 			}
 		}
-		ck.fail[verifAHosts[0]] = aop == 2
-		ck.fail[verifAHosts[1]] = verif.Choice("b_fails", 2) == 1
+		ck.fail[verifAHosts[0]] = verif.Bool("a_fails")
+		ck.fail[verifAHosts[1]] = verif.Bool("b_fails")
 		ck.fail[verifAHosts[2]] = false
 
 		got := f.Run(addrs)
@@ -148,17 +148,17 @@ func VerifActiveFindingRejoin() {
 // reports that host healthy.
 func VerifActiveSingleHost() {
 	verifASched()
-	fails := verif.Choice("fails", 3) + 1
-	passes := verif.Choice("passes", 3) + 1
+	fails := verif.IntRange("fails", 1, 3)
+	passes := verif.IntRange("passes", 1, 3)
 	ck := &verifAChecker{fail: map[string]bool{}, seen: map[string]int{}}
 	f := NewFilter(FilterConfig{Fails: fails, Passes: passes}, ck)
 	rounds := verif.Bound("rounds_before_single", 2, 3)
 	for r := 0; r < rounds; r++ {
-		ck.fail[verifAHosts[0]] = verif.Choice("a_fails", 2) == 1
-		ck.fail[verifAHosts[1]] = verif.Choice("b_fails", 2) == 1
+		ck.fail[verifAHosts[0]] = verif.Bool("a_fails")
+		ck.fail[verifAHosts[1]] = verif.Bool("b_fails")
 		f.Run(stringset.New(verifAHosts[0], verifAHosts[1]))
 	}
-	ck.fail[verifAHosts[0]] = verif.Choice("a_fails", 2) == 1
+	ck.fail[verifAHosts[0]] = verif.Bool("a_fails")
 	got := f.Run(stringset.New(verifAHosts[0]))
 	verif.Assert("single-host-reported", got.Has(verifAHosts[0]))
 	verif.Assert("single-host-only", len(got) == 1)
